@@ -483,7 +483,12 @@ def label_configs(rng, g):
 def build_tasks(ctx, flavour, quick):
     rng = ctx.rng
     deg = degenerate_graphs(rng)
-    rnd = random_graphs(rng, 10 if quick else 60)
+    rnd = random_graphs(rng, 10 if quick else 120)
+    small = []
+    if not quick:
+        # every digraph (loops allowed) on 3 nodes, for the algorithms that enter compiled kernels
+        for es in graphs.all_digraphs(3, loops=True):
+            small.append(gdict('digraph3', _csr(3, es)))
     tasks = []
 
     def add(algo, g, extra=None):
@@ -495,7 +500,8 @@ def build_tasks(ctx, flavour, quick):
     for algo in ALL_ALGOS:
         pool_deg = deg if (algo in KERNEL_ALGOS or not quick) else rng.sample(deg, 14)
         pool_rnd = rnd if (algo in KERNEL_ALGOS or not quick) else rng.sample(rnd, 3)
-        for g in pool_deg + pool_rnd:
+        pool_small = small if algo in KERNEL_ALGOS else []
+        for g in pool_deg + pool_rnd + pool_small:
             if algo in ('Propagation', 'DiffusionClassifier', 'PageRankClassifier', 'NNClassifier'):
                 cfgs = label_configs(rng, g)
                 if algo != 'Propagation' or quick:
@@ -661,7 +667,7 @@ def stream(ctx, flavour, quick, monitor):
         root, info = overlay.sync('checked')
         ctx.extra['checked_overlay'] = info if len(str(info)) < 600 else {'built': info.get('built'), 'wall_s': info.get('wall_s')}
     tasks = build_tasks(ctx, flavour, quick)
-    limit = 10 if quick else 20
+    limit = 6 if quick else 20
     t0 = time.time()
     results = run_pool(root, tasks, limit, _nworkers(), monitor=monitor, tag=flavour[0])
     ctx.extra['stream_' + flavour] = {'tasks': len(tasks), 'wall_s': round(time.time() - t0, 1), 'limit_s': limit}
